@@ -625,6 +625,39 @@ fn long_polls(invariants_mode: bool, rep: &mut Report) {
     }
 }
 
+/// LONG transfers (135 and 300 chunks: 9 and 20 pages of the largest front sign) with every reply symbol in turn at the
+/// positions that conclude an attempt (the result query, first and second visit) and at the request's acknowledgement: how
+/// much was sent has no bearing on what a reply means.
+fn long_transfers(invariants_mode: bool, rep: &mut Report) {
+    let mut rng = Rng::new(0xC10_1046);
+    for n_pages in [9usize, 20] {
+        let pages = mk_pages(0, n_pages, &mut rng);
+        for (pos_name, visit) in [("pixels_result_query", 0usize), ("pixels_result_query", 1), ("pixels_request_ack", 0), ("pixels_request_ack", 1)] {
+            for sym in 0..N_SYMBOLS as u16 {
+                let mut visits = 0usize;
+                let mut fails_left = visit; // reach the second visit through one failed attempt
+                let pick = Box::new(move |_depth: usize, pos: &'static str| {
+                    if pos == pos_name {
+                        visits += 1;
+                        if visits == visit + 1 {
+                            return sym;
+                        }
+                    }
+                    if pos == "pixels_result_query" && fails_left > 0 {
+                        fails_left -= 1;
+                        return S_PIX_FAIL as u16;
+                    }
+                    proceed(&Op::SendPages, pos, 0)
+                });
+                let mut sess = Session::new(3, 2, 0);
+                let c = sess.call(&Op::SendPages, &pages, vec![], 1200, pick, false);
+                monitor(&c, 0, pages.len(), invariants_mode, rep);
+                rep.count("long_transfers_with_every_reply_at_the_concluding_positions");
+            }
+        }
+    }
+}
+
 fn random_conversation(ctx: &Ctx, rng: &mut Rng, invariants_mode: bool, rep: &mut Report) {
     let ty = rng.usize(TYPES.len());
     let own = rng.edgy_u16();
@@ -759,6 +792,8 @@ pub fn run(ctx: &Ctx, invariants_mode: bool) -> Outcome {
                 failing_streaks(invariants_mode, rep);
             } else if shard == nj + 2 {
                 long_polls(invariants_mode, rep);
+            } else if shard == nj + 3 {
+                long_transfers(invariants_mode, rep);
             }
             for _ in 0..n_random / rand_shards as u64 {
                 random_conversation(ctx, &mut rng, invariants_mode, rep);
@@ -780,6 +815,7 @@ pub fn run(ctx: &Ctx, invariants_mode: bool) -> Outcome {
         floor("bus errors of every kind (custom, io::Error Interrupted / TimedOut / WouldBlock, wrapped io::Error, FrameError around an io::Error, a relayed SignError of either variant)", report.set_len("bus_error_flavours") == 10, report.set_len("bus_error_flavours")),
         floor("conversations over a bus that makes controller calls of its own (to another sign) while it handles each message: half of the failing streaks, a sixth of the random conversations", report.get("failing_streaks_over_a_relaying_bus") == 42 && report.get("conversations_over_a_relaying_bus") > 100, format!("{} / {}", report.get("failing_streaks_over_a_relaying_bus"), report.get("conversations_over_a_relaying_bus"))),
         floor("state reports and acknowledgements delivered as Message::Unknown around their own frame", report.get("replies_delivered_as_unknown_frames_around_a_known_message") > 500, report.get("replies_delivered_as_unknown_frames_around_a_known_message")),
+        floor("transfers of 135 and 300 chunks with every reply symbol at the result query and at the acknowledgement (first and second visit)", report.get("long_transfers_with_every_reply_at_the_concluding_positions") == 2 * 4 * N_SYMBOLS as u64, report.get("long_transfers_with_every_reply_at_the_concluding_positions")),
         floor("calls that fail exactly k times in a row on one Sign object, then ordinary calls (14 counts x 6 kinds of failure)", report.get("failing_streaks_followed_by_ordinary_calls") == 84, report.get("failing_streaks_followed_by_ordinary_calls")),
         floor("page flips that are polled 10 .. 70 000 times before they complete", report.get("long_polls_that_ended_in_success") == 28, report.get("long_polls_that_ended_in_success")),
         floor("one Sign object used for 70 000 calls", report.get("marathon_calls_on_one_sign_object") == 70_000, report.get("marathon_calls_on_one_sign_object")),
